@@ -350,6 +350,62 @@ def replay(obligation, model, rep):
             "observed": observed, "exception": exc}
 
 
+def cache_items(repo):
+    """A field of FortranFile that is filled lazily from the text (`if self.F is None: self.F = ... self.contents_split
+    ...`) is a cache of the text: every method that writes the text (assigns contents_split / contents_pp or one of their
+    elements) must reset it on every path, or an answer may be computed from a superseded text."""
+    import ast as _ast
+    cls_q = f"{PARSER}.FortranFile"
+    methods = {q[len(cls_q) + 1:]: fi for q, fi in repo.all_functions() if q.startswith(cls_q + ".") and "." not in q[len(cls_q) + 1:]}
+    text_fields = {"contents_split", "contents_pp"}
+
+    def mentions_text(e):
+        return any(isinstance(n, _ast.Attribute) and isinstance(n.value, _ast.Name) and n.value.id == "self" and n.attr in text_fields
+                   for n in _ast.walk(e))
+    caches = {}
+    for name, fi in methods.items():
+        for n in _ast.walk(fi.node):
+            if isinstance(n, _ast.If) and isinstance(n.test, _ast.Compare) and len(n.test.ops) == 1 and isinstance(n.test.ops[0], _ast.Is) \
+                    and isinstance(n.test.comparators[0], _ast.Constant) and n.test.comparators[0].value is None \
+                    and isinstance(n.test.left, _ast.Attribute) and _ast.unparse(n.test.left.value) == "self":
+                f = n.test.left.attr
+                for a in _ast.walk(_ast.Module(body=n.body, type_ignores=[])):
+                    if isinstance(a, _ast.Assign) and any(_ast.unparse(t) == f"self.{f}" for t in a.targets) and mentions_text(a.value) \
+                            and f not in text_fields:
+                        caches[f] = fi.where(a)
+    writers = {}
+    for name, fi in methods.items():
+        for n in _ast.walk(fi.node):
+            tg = []
+            if isinstance(n, _ast.Assign):
+                tg = n.targets
+            elif isinstance(n, (_ast.AugAssign, _ast.AnnAssign)):
+                tg = [n.target]
+            for t in tg:
+                for e in (t.elts if isinstance(t, _ast.Tuple) else [t]):
+                    base = e.value if isinstance(e, _ast.Subscript) else e
+                    if isinstance(base, _ast.Attribute) and _ast.unparse(base.value) == "self" and base.attr in text_fields:
+                        writers.setdefault(name, []).append(n)
+    bad = []
+    for f, where in caches.items():
+        for w, nodes in writers.items():
+            fn = methods[w].node
+            for node in nodes:
+                # the reset must be in the same statement list as the write (or the write goes through set_contents)
+                resets = [a for a in _ast.walk(fn) if isinstance(a, _ast.Assign) and any(_ast.unparse(t) == f"self.{f}" for t in a.targets)
+                          and isinstance(a.value, _ast.Constant) and a.value.value is None]
+                lists = [lst for n2 in _ast.walk(fn) for fld in ("body", "orelse", "finalbody") for lst in [getattr(n2, fld, None)]
+                         if isinstance(lst, list) and any(x is node or any(y is node for y in _ast.walk(x)) for x in lst)]
+                ok = any(any(r is x or any(y is r for y in _ast.walk(x)) for x in lst) for lst in lists for r in resets)
+                if not ok:
+                    bad.append({"cache_field": f, "filled_at": where, "text_written_by": f"FortranFile.{w}",
+                                "where": methods[w].where(node), "statement": _ast.unparse(node)[:100]})
+    return [Item("C02/FortranFile/frame.caches_follow_the_text", "refuted" if bad else "proved", "frame-analysis", 0.0, mode="E",
+                 func=f"{cls_q}.apply_change", witness=bad[:4] or None,
+                 detail=f"{len(caches)} lazily filled cache(s) of the text in FortranFile {sorted(caches)}; {sum(len(v) for v in writers.values())} "
+                        f"statements in {sorted(writers)} write the text: each resets every cache")]
+
+
 def extra(repo, reg, tier, seed):
     """Lemma behind the contract of splitlines: bounded, exhaustive, against the real function."""
     import ast as _ast
@@ -394,6 +450,7 @@ def extra(repo, reg, tier, seed):
                       mode="bounded", func=f"{PARSER}.FortranFile.apply_change", witness=w, confirmed=True if w else None,
                       detail="bounded: edit/revert and twin-document histories; the proofs model lists by value, so "
                              "sharing of the line list between calls or documents is checked natively"))
+    items += cache_items(repo)
     w = _cr_joins_lf()
     items.append(Item("C02/session/native_cr_joins_following_lf", "refuted" if w else "bounded-ok", "native-run(bounded)", 0.0,
                       mode="bounded", func="fortls.parsers.internal.parser.FortranFile.apply_change", witness=w, confirmed=True if w else None,
